@@ -36,6 +36,28 @@ def check(ctx):
             G = T.size(fld(TH, 'generators_'))
             res = fld(s.this, 'results_')
             gen = fld(s.this, 'generators_')
+
+            def order_case(rel):
+                m = {}
+                for (x, y), r in (((K, n), rel), ((n, K), {'<': '>', '>': '<', '==': '=='}[rel])):
+                    m[('<', x, y)] = T.TRUE if r == '<' else T.FALSE
+                    m[('<=', x, y)] = T.TRUE if r in ('<', '==') else T.FALSE
+                    m[('>', x, y)] = T.TRUE if r == '>' else T.FALSE
+                    m[('>=', x, y)] = T.TRUE if r in ('>', '==') else T.FALSE
+                    m[('==', x, y)] = T.TRUE if r == '==' else T.FALSE
+                    m[('!=', x, y)] = T.FALSE if r == '==' else T.TRUE
+                return m
+
+            def by_order(t, base, lo_):
+                # the value for k < n and for k == n; erasing the empty range [n, n) is a no-op, so an
+                # early `return` for k == n is the same as the erase
+                lt = T.subst(t, order_case('<'))
+                eq = T.subst(t, order_case('=='))
+                if eq == base:
+                    eq = lt
+                return lt if lt == eq else t
+            res = by_order(res, fld(TH, 'results_'), K)
+            gen = by_order(gen, fld(TH, 'generators_'), add(K, ONE))
             inv = {G: add(n, ONE)}
             sr = T.subst(T.size(res), inv)
             sg = T.subst(T.size(gen), inv)
@@ -72,8 +94,12 @@ def check(ctx):
             # R2: range check dominates every mutation
             thr = [e for e, l in flat_effects(s.effects) if e['kind'] == 'throw']
             cond = ('>', K, n)
-            if thr and all(same_cond(T.conj(e['pc']), cond) for e in thr) and \
-                    all(same_cond(T.conj(e['pc']), T.lnot(cond)) for e in er):
+            def truth(pc, rel):
+                return T.subst(T.conj(pc), order_case(rel))
+            thr_ok = thr and all(truth(e['pc'], '>') == T.TRUE and truth(e['pc'], '<') == T.FALSE and
+                                 truth(e['pc'], '==') == T.FALSE for e in thr)
+            er_ok = all(truth(e['pc'], '>') == T.FALSE for e in er)
+            if thr_ok and er_ok:
                 ctx.holds('R2.range_check_first', where, 'k > n throws before anything is erased; every '
                           'erase happens under k <= n; k = n erases the empty range')
             else:
